@@ -184,6 +184,8 @@ CHECKS = {
             "runs return; the breadth-first ORDER of MNTM visits (C03_mntm_visits_reachable, by the queue invariant 'depth d then depth "
             "d+1, everything shallower already dequeued'): the dequeued configurations carry non-decreasing depths, each is reachable in "
             "exactly its depth, and unless fuel ran out everything reachable in fewer moves than the last dequeued one was dequeued. "
+            "An MNTM entry with an empty list of alternatives (accepted by the constructor) is no transition, as in the repaired "
+            "read_input_stepwise: the native run of any table ends by accept, rejection or budget (C03_mntm_no_other_outcome); generated in one table in ten. "
             "Model tied to the code by exact comparison of traces (state, head-relative non-blank cells), NTM levels as sets, generator endings, "
             "accepts_input/read_input under a step budget.",
             "Runs are compared up to the step budget only (halting is not assumed).", "7/C03"),
